@@ -578,6 +578,9 @@ pub fn driver_set(prop: Prop, thorough: bool) -> Vec<Planned> {
             shapes.push(("D6v O|CC", Path::VecChild, vec![o(&[c]), col(2)], Mode::U));
             shapes.push(("D6r O|CC", Path::Registry, vec![o(&[c]), col(2)], Mode::U));
             shapes.push(("D8 Batch|O|CC", Path::Direct, vec![vec![Batch(vec![a, e])], o(&[c]), col(2)], big));
+            // collectors queueing behind one another while a third thread observes and then collects itself
+            shapes.push(("D11 C|C|OC", Path::Direct, vec![col(1), col(1), vec![Observe(c), Collect]], Mode::B(2)));
+            shapes.push(("D12 C|C|C|OC", Path::Direct, vec![col(1), col(1), col(1), vec![Observe(c), Collect]], Mode::B(2)));
             if thorough {
                 shapes.push(("D9 OOO|CCC", Path::Direct, vec![o(&[a, c, e]), col(3)], Mode::U));
                 shapes.push(("D10 O|O|C|C", Path::Direct, vec![o(&[a]), o(&[e]), col(1), col(1)], Mode::B(3)));
